@@ -315,6 +315,8 @@ impl Task {
     }
 
     pub fn set_state(&self, state: TaskState) {
+        #[cfg(feature = "verif")]
+        crate::verif::on_state(self, &self.state(), &state, false);
         if state.is_completed() {
             self.set_end_time(utils::time::time_millis());
 
@@ -346,6 +348,8 @@ impl Task {
     }
 
     pub fn set_pure_state(&self, state: TaskState) {
+        #[cfg(feature = "verif")]
+        crate::verif::on_state(self, &self.state(), &state, true);
         *self.state.write().unwrap() = state;
     }
 
